@@ -21,12 +21,15 @@ RULE = ("AddressSanitizer + UBSan build.  Transport: a real Node B with live ses
         "(genuine, flipped, cut, extended); B's ACK is read.  Then 0..6 hostile actions: raw bytes written into A's session "
         "(frame headers announcing 0, 1, 2^20, 2^20+1, 2^32-1 bytes, truncated frames, random bytes), well-formed frames "
         "whose plaintext is random, a truncated or bit-flipped signed message, or a signed message of every type with hostile "
-        "fields, and TCP connections to B's transport port that send random bytes, a huge length prefix or nothing "
+        "fields, length-field sweeps over a valid ANNOUNCE / CHUNK / REQUEST (at every offset of the encoding one, two or three "
+        "consecutive 32-bit words whose sum wraps around to a small number, the rest of the message kept or cut there; signed, or sent "
+        "where the transport handshake is expected), and TCP connections to B's transport port that send random bytes, a huge length prefix or nothing "
         "before the handshake.  After each, an honest peer C with its own session asks B for a chunk B holds and must get it. "
         "Control plane: the real ControlServer::Impl::handle_client on the node that holds the chunk: FETCH with MANIFEST "
         "absent / genuine / corrupted / undecodable, OUT absent / empty / a file / a path below a regular file, STREAM on / "
         "off, and raw request bytes (no blank line, 20000-byte lines, NUL bytes, only colons); the response code is read and "
-        "a PING must still be answered.  Oracle: the process ends normally with no sanitizer report (an exception on a "
+        "a PING must still be answered; and peers / control clients that send a request and hang up before the answer (the "
+        "harness installs the daemon's own signal dispositions, `install_termination_handlers` of src/main.cpp).  Oracle: the process ends normally with no sanitizer report (an exception on a "
         "session thread, std::terminate, a crash or a hang end it abnormally), every probe is served, no exception leaves "
         "handle_client, every PING is answered. non-trivial = a corrupted manifest, a hostile action or a hostile request; "
         "distinct = distinct outputs")
@@ -82,6 +85,13 @@ def store_prefix(rng, favour_shards):
 
 def hostile_action(rng):
     r = rng.random()
+    if r < 0.12:
+        return [5] + lp(b"")          # a peer asks for the chunk and hangs up before the answer
+    if r < 0.25:
+        # a length-field sweep over a valid ANNOUNCE / CHUNK / REQUEST: 1..3 consecutive 32-bit words whose sum wraps around to the
+        # size of what follows, at every offset; signed (3) or sent before the handshake (4)
+        return [rng.choice([3, 3, 4])] + lp(bytes([rng.randrange(3), rng.randrange(3), rng.randrange(8), rng.randrange(2)]))
+    r = (r - 0.25) / 0.75
     if r < 0.4:
         # raw bytes into the session: nonce (12) + length (4, big endian) + some bytes
         ln = rng.choice([0, 1, 16, 1 << 20, (1 << 20) + 1, 0x7FFFFFFF, 0xFFFFFFFF, rng.randrange(1 << 32)])
@@ -120,7 +130,9 @@ def generate(rng, tier):
             nr = rng.randrange(1, 7)
             ints = [3] + prefix + [nr]
             for _ in range(nr):
-                if rng.random() < 0.25:
+                if rng.random() < 0.2:
+                    ints += [2, rng.choice([0, 1])]       # a genuine FETCH whose sender hangs up before the answer
+                elif rng.random() < 0.25:
                     raw = rng.choice([b"COMMAND:FETCH\n", b"COMMAND:FETCH\nMANIFEST:" + b"A" * 20000 + b"\n\n", b"\x00\x00\n\n", b":::\n:\n\n", b"\n",
                                       b"COMMAND:FETCH\nOUT:\n\n", b"COMMAND:FETCH\nMANIFEST:eph://" + bytes(rng.randrange(33, 127) for _ in range(50)) + b"\nOUT:\nSTREAM:client\n\n",
                                       bytes(rng.randrange(256) for _ in range(rng.choice([1, 50, 700])))])
